@@ -102,7 +102,13 @@ macro_rules! impl_mt_square {
                 Some(match path {
                     "to_cols_array" => MObs::Flat(self.to_cols_array().to_vec()),
                     "to_cols_array_2d" => MObs::Flat(self.to_cols_array_2d().iter().flat_map(|c| c.iter().copied()).collect()),
-                    "write_cols_to_slice" => { let mut b = vec![self.col(0)[1]; $NN]; self.write_cols_to_slice(&mut b[..]); MObs::Flat(b) }
+                    "write_cols_to_slice" => {
+                        // two canaries beyond the last entry: the observation can only match if they are untouched
+                        let (c1, c2) = (self.col(0)[1], self.col(1)[0]);
+                        let mut b = vec![c1; $NN + 2]; b[$NN + 1] = c2; self.write_cols_to_slice(&mut b[..]);
+                        if b[$NN].to_bits() == c1.to_bits() && b[$NN + 1].to_bits() == c2.to_bits() { b.truncate($NN); }
+                        MObs::Flat(b)
+                    }
                     "as_ref" => { impl_mt_square!(@asref $asref, self, $S, $NN) }
                     "cols" => MObs::Flat((0..$N).flat_map(|c| { let v = self.col(c); (0..$N).map(move |r| v[r]) }).collect()),
                     "rows" => MObs::Flat((0..$N).flat_map(|r| { let v = self.row(r); (0..$N).map(move |c| v[c]) }).collect()),
@@ -180,7 +186,12 @@ macro_rules! impl_mt_affine {
                 Some(match path {
                     "to_cols_array" => MObs::Flat(self.to_cols_array().to_vec()),
                     "to_cols_array_2d" => MObs::Flat(self.to_cols_array_2d().iter().flat_map(|c| c.iter().copied()).collect()),
-                    "write_cols_to_slice" => { let mut b = vec![self.translation[0]; $RC]; self.write_cols_to_slice(&mut b[..]); MObs::Flat(b) }
+                    "write_cols_to_slice" => {
+                        let (c1, c2) = (self.translation[0], self.translation[1]);
+                        let mut b = vec![c1; $RC + 2]; b[$RC + 1] = c2; self.write_cols_to_slice(&mut b[..]);
+                        if b[$RC].to_bits() == c1.to_bits() && b[$RC + 1].to_bits() == c2.to_bits() { b.truncate($RC); }
+                        MObs::Flat(b)
+                    }
                     "cols" => MObs::Flat(vec![$(self.$ax),+].iter().flat_map(|v| (0..$R).map(move |r| v[r])).collect()),
                     "fields" => {
                         let mut o: Vec<$S> = self.$lin.to_cols_array().to_vec();
